@@ -35,7 +35,7 @@ LEVEL_NOTE = ("Trusted: Lean kernel + {propext, Classical.choice, Quot.sound}; J
               "executable instance; the GLV docstring formula is garbled, the documented form is the log form fixed "
               "in DESIGN.md section 5 (C02) from the notebook's reference solver; floating point is not modelled "
               "(inputs make every float64 operation exact, except the one GLV quotient u'/u at points where u is not "
-              "a power of two: rounding rule |obs - doc| <= 2^-52 (|u'/u| + |doc|), counted in tags).")
+              "a power of two, which reverse-mode AD accumulates monomial by monomial: rounding rule |obs - doc| <= 2^-49 (sum_m |u'_m(t)| / |u(t)| + |doc|), i.e. 16 roundings per term measured on the terms and not on the possibly cancelling result; counted in tags).")
 TECHNIQUE = ("Lean 4 proof (field algebra with derivations, point evaluations, list-sum inductions) + exact differential "
              "correspondence on polynomial PINNs")
 THEOREMS = [
@@ -125,7 +125,7 @@ ASSUMPTIONS = [
 EXHAUSTIVE = {"quick": False, "thorough": False}
 
 TMAX = ["1", "2", "1/2", "8"]
-REL_TOL = "1/4503599627370496"  # 2^-52
+REL_TOL = "1/562949953421312"  # 2^-49 = 16 roundings of 2^-53 per term
 
 
 # --------------------------------------------------------------------------------------------
